@@ -42,14 +42,52 @@ def r1_ctx_provenance(ctx, F):
                               "the address passed to %s in %s does not pass through get_valid_address (sources: %s): an address >= 2^32 would be truncated instead of failing"
                               % (short(cal), short(fn.id), sorted(short(c) for c in calls_b)[:6]))
     ctx.floor("memory-access-sites", n, 8)
-    # get_valid_address: rejecting comparison against u32::MAX
+    # get_valid_address: Ok(a) exactly for a < 2^32, Err otherwise (interpreted symbolically; the branch conditions of each path
+    # are evaluated at boundary values, so the verdict does not depend on how the comparison is written)
+    from . import execmodel
     gva = F.fn(r"^miden_processor::operations::io_ops::Process::get_valid_address$")
-    cs = [c for c in cmp_branches(gva) if c["kind"] == "bin"]
-    ok = any(c["op"] in (">", ">=") and (gva.const_of(c["b"]) in (4294967295, 4294967296)) for c in cs) and bool(err_blocks(gva))
     ctx.inst(key="get_valid_address", nontrivial=True)
-    ctx.oblig(ok)
-    if not ok:
-        ctx.violation("get_valid_address-bound", gva.loc(), "get_valid_address lacks the rejecting comparison against u32::MAX")
+
+    def make():
+        I = Interp(F)
+        procmodel.install_field(I)
+        return I
+
+    probes = (0, 1, 2 ** 16, 2 ** 32 - 2, 2 ** 32 - 1, 2 ** 32, 2 ** 32 + 1, 2 ** 33, 2 ** 63, execmodel.P_ - 1)
+    ok, why, npaths = True, "", 0
+    covered = set()
+    try:
+        for I, res, exc in enumerate_paths(make, lambda I: I.call(gva.id, [Poly.var("addr")])):
+            npaths += 1
+            if exc is not None:
+                if isinstance(exc, PanicReached):
+                    adm = execmodel.admitted(I.path, "addr", probes)
+                    if adm:
+                        ok, why = False, "panics for address %s" % adm[0]
+                    continue
+                raise exc
+            adm = execmodel.admitted(I.path, "addr", probes)
+            is_ok = isinstance(res, Agg) and res.variant == "Ok"
+            for v in adm:
+                covered.add(v)
+                if is_ok and v >= 2 ** 32:
+                    ok, why = False, "accepts the address %d >= 2^32" % v
+                elif not is_ok and v < 2 ** 32:
+                    ok, why = False, "rejects the valid address %d" % v
+                elif is_ok:
+                    r = execmodel.ev(res.items[0], {"addr": v})
+                    if r != v:
+                        ok, why = False, "returns %r for the address %d" % (r, v)
+        if ok and covered != set(probes):
+            ok, why = False, "no path decided for address(es) %s" % sorted(set(probes) - covered)[:3]
+    except Unanalysable as e:
+        ctx.violation("UNANALYSABLE|get_valid_address", gva.loc(), str(e)[:300])
+        ok = None
+    if ok is not None:
+        ctx.oblig(ok)
+        ctx.analysed("get_valid_address: %d paths, boundary values %s" % (npaths, list(probes)))
+        if not ok:
+            ctx.violation("get_valid_address-bound", gva.loc(), "get_valid_address must return the address exactly when it is below 2^32 and fail otherwise: it %s" % why)
 
 
 def r2_keyed_storage(ctx, F):
